@@ -17,6 +17,8 @@ pub fn exec_case(line: &str) -> Option<Vec<u64>> {
         "TSW" => { let a: u64 = toks[1].parse().unwrap(); let c: u64 = toks[2].parse().unwrap(); guarded(move || obs::run_tsw(a, c)) }
         "CRP" => { let a: u64 = toks[1].parse().unwrap(); let c: u64 = toks[2].parse().unwrap(); guarded(move || obs::run_crp(a, c)) }
         "CRS" => { let b = unhex(toks[1]); guarded(move || obs::run_crs(&b)) }
+        "PES" => { let b = unhex(toks[1]); guarded(move || obs::run_pes(&b)) }
+        "PPC" => { let b = unhex(toks[1]); guarded(move || obs::run_ppc(&b)) }
         "AF" => { let b = unhex(toks[1]); guarded(move || obs::run_af(&b)) }
         k => panic!("unknown case kind {}", k),
     }
